@@ -114,17 +114,23 @@ class ForeignAbort(BaseException):
     handler, RecursionError ...) unwinding a request half-way"""
 
 
-def abort_at_call(P, fn, n):
+class ForeignError(Exception):
+    """the same, but an `Exception` (like RecursionError, TimeoutError, MemoryError): clean-up written as `except Exception`
+    sees this one and does not see the other"""
+
+
+def abort_at_call(P, fn, n, exc_cls=None):
     """runs fn() but raises ForeignAbort at the n-th function call made inside abnf/parser.py; True when fn was cut short"""
     import sys
     count = [0]
     fname = P.__file__
+    exc_cls = exc_cls or ForeignAbort
 
     def tracer(frame, event, arg):
         if event == "call" and frame.f_code.co_filename == fname:
             count[0] += 1
             if count[0] == n:
-                raise ForeignAbort()
+                raise exc_cls()
         return None
 
     old = sys.gettrace()
@@ -135,11 +141,54 @@ def abort_at_call(P, fn, n):
     try:
         fn()
         return False
-    except ForeignAbort:
+    except (ForeignAbort, ForeignError):
         return True
     finally:
         sys.settrace(old)
         sys.unraisablehook = oldhook
+
+
+def disturb_kind(s, i):
+    """What happens to the rule object right BEFORE the measured request (a pure function of the case, so that a replay does
+    the same): nothing (60%), a listing of the same request abandoned after its first match, the same kept SUSPENDED while
+    the measured request runs, or an attempt of the same request cut short at the n-th library call by a BaseException / by
+    an Exception.  None of this may alter the measured request (C08: independent of earlier requests; C17: an abandoned
+    request leaves nothing behind) - state left in rule objects by a fault or a dropped generator shows up as a wrong answer."""
+    import zlib
+    d = zlib.crc32(repr((s, i)).encode())
+    kind = {0: "abandon", 1: "suspend", 2: "abort-base", 3: "abort-exc"}.get(d % 10, "none")
+    return [kind, [2, 3, 5, 8, 13, 21, 34, 55][(d // 10) % 8]]
+
+
+def disturb(P, mode, rule, s, i, kind):
+    """performs the disturbance; returns an object to keep alive until the measured request is done (the suspended listing)"""
+    k, n = kind
+    held = []
+
+    def first():
+        g = rule.lparse(s, i)
+        try:
+            next(g)
+        except (StopIteration, P.ParseError, P.GrammarError, RecursionError):
+            return
+        held.append(g)
+
+    if k in ("abandon", "suspend"):
+        with_budget(1.0, first, None)
+        if k == "abandon":
+            held.clear()      # the only reference goes: the generator is closed on the spot
+    elif k in ("abort-base", "abort-exc"):
+        with_budget(1.0, lambda: abort_at_call(P, lambda: py_outcomes(P, mode, rule, s, i), n,
+                                               ForeignAbort if k == "abort-base" else ForeignError), None)
+    return held
+
+
+def undisturb(held):
+    for g in held or []:
+        try:
+            g.close()
+        except Exception:  # noqa
+            pass
 
 
 def decoy_for(grammars, gi):
@@ -187,11 +236,9 @@ def eval_py(P, mode, gcases, text_route=False, decoy=True, aborts=None):
                 n_out = len(case_lines(mode, s, i))
                 if decoy_rule is not None:
                     with_budget(1.0, lambda: py_outcomes(P, mode, decoy_rule, s, i), None)
-                if arng is not None and arng.random() < 0.15:
-                    # an earlier attempt of the same request, abandoned half-way by a foreign exception: must leave no trace
-                    na = arng.choice([2, 3, 5, 8, 13, 21, 34, 55, 89])
-                    with_budget(1.0, lambda: abort_at_call(P, lambda: py_outcomes(P, mode, rules[0], s, i), na), None)
+                held = disturb(P, mode, rules[0], s, i, disturb_kind(s, i))
                 pys = with_budget(CASE_BUDGET_S, lambda: py_outcomes(P, mode, rules[0], s, i), ["slow:no-result-within-budget"] * n_out)
+                undisturb(held)
                 if pys[0].startswith("slow:"):
                     build_exc = "slow:skipped-after-slow-case"   # do not spend the budget again on this grammar
             else:
@@ -257,6 +304,8 @@ def run(ctx, P, mode, n_grammars, n_strings, seed, gen_kwargs=None, all_offsets=
                         "implementation": py, "model": ln,
                         # the grammar of the same rule names that was asked first (see eval_py); part of the failing history
                         "decoy": decoy_for(grammars, gi),
+                        # what was done to the rule object right before the request (see disturb_kind); part of the failing history
+                        "disturb": disturb_kind(s, i),
                     })
     stats["distinct_nontrivial"] = len(nontrivial)
     stats["grammars"] = n_grammars
@@ -293,11 +342,14 @@ def build_with_decoy(P, grammar, decoy):
     return rules, drule
 
 
-def replay_case(P, grammar, s, i, mode, decoy=None):
+def replay_case(P, grammar, s, i, mode, decoy=None, disturbance=None):
     rules, drule = build_with_decoy(P, grammar, decoy)
     if drule is not None:
         with_budget(1.0, lambda: py_outcomes(P, mode, drule, s, i), None)
-    return py_outcomes(P, mode, rules[0], s, i)
+    held = disturb(P, mode, rules[0], s, i, disturbance) if disturbance else None
+    out = py_outcomes(P, mode, rules[0], s, i)
+    undisturb(held)
+    return out
 
 
 def shrink(P, mode, d, max_rounds=30):
@@ -318,7 +370,9 @@ def shrink(P, mode, d, max_rounds=30):
         cl = case_lines(mode, s, i)
         if drule is not None:
             with_budget(1.0, lambda: py_outcomes(P, mode, drule, s, i), None)
+        held = disturb(P, mode, rules[0], s, i, d["disturb"]) if d.get("disturb") else None
         pys = py_outcomes(P, mode, rules[0], s, i)
+        undisturb(held)
         out = lib.run_driver(lines + cl)
         for line, py, ln in zip(cl, pys, out[1:]):
             if line.split()[0] == qkind and not agree(mode, py, ln):
